@@ -15,9 +15,12 @@ from .common import USER
 
 NAMES = ['Work', 'a b', 'q"t', 'b\\s', 'a&b', 'é', '日本語', 'Déjà vu/été',
          'x/y', 'inbox', 'INBOX', 'Inbox', '&', 'a&é', 'é&', 'é&x', '~t',
-         'p(q)', 'st]r', '{7}', 'tab\there', 'nl\nhere', 'x' * 70]
+         'p(q)', 'st]r', '{7}', 'tab\there', 'nl\nhere', 'x' * 70,
+         # every ATOM-CHAR that is not a letter or digit, in atom position
+         'a}b', '}', "!#$&'+,-.", ':;<=>?@', '[^_`|~', 'a|b~c']
 SPELLINGS = ['atom', 'quoted', 'lit', 'litplus', 'litplus0', 'lit0']
-NEEDLES = ['hello', 'message', 'a b', 'x"y', 'T1T', 'sender']
+NEEDLES = ['hello', 'message', 'a b', 'x"y', 'T1T', 'sender', 'a}b', 'x|y',
+           '~z']
 
 
 def case_variant(word: str, rng: random.Random) -> str:
